@@ -255,8 +255,57 @@ pub fn run(rep: &mut Report) {
         Some(v) => std::env::set_var("L4V_JOBS", v),
         None => std::env::remove_var("L4V_JOBS"),
     }
+    if rep.tier == "thorough" && std::env::var("L4V_NO_MIRI").is_err() {
+        crate::miri::run_miri_seeds(rep, "C04", 48);
+        rep.require(rep.counter("miri_seeds_run") >= 48 / 2, "fewer than half of the Miri seeds produced a result");
+    }
     rep.require(rep.counter("appends_observed_after_return") > 500, "fewer than 500 appends observed after return");
     rep.require(rep.counter("adjacent_cross_thread_pairs") > 100, "concurrent runs did not actually interleave threads");
     rep.require(rep.set_size("thread_order_signatures") >= 5, "fewer than 5 distinct thread orders observed");
     rep.require(rep.counter("amplifier_hook_hits") > 100, "the file.append.encoded hook was not reached");
+}
+
+/// Tiny concurrent run for Miri: 2-3 threads x 3-5 records, judged by the stream oracle.
+pub fn miri_scenario(rep: &mut Report, rng: &mut Rng) {
+    let sc = Scratch::new("c04m");
+    let path = sc.join("app.log");
+    let threads = 2 + rng.usize_below(2);
+    let per = 3 + rng.usize_below(3);
+    let app = match FileAppender::builder().encoder(Box::new(ChunkEnc { pieces: 2 })).build(&path) {
+        Ok(a) => Arc::new(a),
+        Err(e) => {
+            rep.inconclusive(&format!("build failed under miri: {}", e));
+            return;
+        }
+    };
+    let acks: Arc<Mutex<Vec<Ack>>> = Arc::new(Mutex::new(vec![]));
+    std::thread::scope(|s| {
+        for t in 0..threads {
+            let (app, acks) = (app.clone(), acks.clone());
+            s.spawn(move || {
+                let mut mine = vec![];
+                for seq in 0..per as u32 {
+                    mine.push(append_frame(&*app, t as u32 + 1, seq, if seq % 2 == 0 { 10 } else { 1100 }, true));
+                    std::thread::yield_now();
+                }
+                acks.lock().unwrap().extend(mine);
+            });
+        }
+    });
+    let acks = acks.lock().unwrap().clone();
+    if acks.iter().any(|a| !a.ok) {
+        rep.violation("C04:miri:append-failed", json!({}));
+    }
+    let bytes = std::fs::read(&path).unwrap_or_default();
+    match parse_stream(&bytes) {
+        Err(e) => rep.violation("C04:S:stream-not-whole-frames", json!({"what": e, "under": "miri"})),
+        Ok(stream) => match check_stream(&stream, &acks, &StreamOpts { allow_oldest_lost: false }) {
+            Err((sig, what)) => rep.violation(&format!("C04:{}", sig), json!({"what": what, "under": "miri"})),
+            Ok(st) => {
+                rep.count("frames_checked", st.frames as i64);
+                rep.count("adjacent_cross_thread_pairs", st.adjacent_cross_thread_pairs as i64);
+                rep.observe("thread_order_signatures", &st.order_signature.to_string());
+            }
+        },
+    }
 }
